@@ -524,8 +524,8 @@ def run_case(ctx, targets, case, env):
 
 def run(ctx, only_case=None):
     t0 = time.time()
-    tab = T.write()
     entries = T.extract()
+    tab = T.write(entries)
     ok = build_and_audit(ctx, "XgiModel.Props.C08", ["XgiModel.C08.Drive"])
     thorough = not ctx.quick
     targets, skipped = build_targets(entries)
@@ -583,7 +583,16 @@ def run(ctx, only_case=None):
                         ctx.sample({"site": t.site, "network": sp["label"], "args": args, "kwargs": kwargs}, cap=4)
                     else:
                         st["exc"][exc[:120]] += 1
-        dis = correspondence(ctx, specs, ok)
+        cspecs = list(specs)
+        if thorough:                                   # exhaustive small scope for the observer correspondence
+            from ..fn import all_small_hypergraphs
+            small = [L.spec("Hypergraph", [[n, {}] for n in ns], [[list(ms), e, {}] for e, ms in es], {}, label="small")
+                     for ns, es in all_small_hypergraphs(4, 3)]
+            cspecs += small
+            ctx.exhaustive = True
+            ctx.extra["exhaustive_space"] = (f"observer correspondence (model obs vs real views) on all {len(small)} hypergraphs with 4 nodes and "
+                                             "<= 3 distinct non-empty edges; validation of the model, not of the property")
+        dis = correspondence(ctx, cspecs, ok)
     finally:
         shutil.rmtree(tmp, ignore_errors=True)
     exercised = {s: {"ok_calls": v["ok"], "calls": v["calls"], "classes": sorted(v["classes"])} for s, v in sorted(status.items()) if v["ok"]}
